@@ -89,9 +89,12 @@ def evaluateFunc (f : List (α × α) → Res (List β)) (proj : List α → Lis
 /-- `AbstractMaker.result`: evaluate, then wrap the result — element by element if it is a list -/
 def result (kind : Kind) (f : List (α × α) → Res (List β)) (proj : List α → List (α × α)) (g : Grid α)
     (zero : β) : Option (Res (Container β)) :=
-  match evaluateFunc f proj g with
-  | .one v => (wrapOne kind g v zero).map .one
-  | .many vs => (vs.mapM fun v => wrapOne kind g v zero).map .many
+  match kind, g with
+  | .vector, .oned _ _ => none   -- `VectorYXMaker` has no `via_grid_1d`: NotImplementedError, whatever f returned
+  | _, _ =>
+    match evaluateFunc f proj g with
+    | .one v => (wrapOne kind g v zero).map .one
+    | .many vs => (vs.mapM fun v => wrapOne kind g v zero).map .many
 
 /-! ## radial projection -/
 
